@@ -360,10 +360,14 @@ VALUES = [0.0, 1.0, 1.0, -1.0, 2.5, -0.0, 7.0, 1e-9, -3e5]
 
 
 def value():
+  # a diverged evaluation reports an infinite objective: a legal metric value
   return st.one_of(
-      st.sampled_from(VALUES),
+      st.sampled_from(VALUES), st.sampled_from(VALUES),
       st.floats(min_value=-1e6, max_value=1e6, allow_nan=False,
-                allow_infinity=False).map(lambda v: round(v, 3)))
+                allow_infinity=False).map(lambda v: round(v, 3)),
+      st.floats(min_value=-1e6, max_value=1e6, allow_nan=False,
+                allow_infinity=False).map(lambda v: round(v, 3)),
+      st.sampled_from([float('inf'), float('-inf')]))
 
 
 def chance(percent):
